@@ -65,64 +65,14 @@ FirstFailed(ops) == LET bad == {i \in 1 .. Len(ops) : OpOk(ops[i]) # 1} IN
                     IF bad = {} THEN 0 ELSE CHOOSE i \in bad : \A j \in bad : i <= j
 
 ---------------------------------------------------------------------------
-\* framing of a drawing call (C08): nothing but groups  2A p4 . 2B p4 . 2C . pixels
-Be(p, i) == p[i] * 256 + p[i + 1]
-FramingErrors(c0, cmds, wpp, isDT) ==
-  LET n == Len(cmds)
-      cl == ColLimit(c0.madctl, c0.W, c0.H)
-      pl == PageLimit(c0.madctl, c0.W, c0.H)
-      BadAt(i) ==
-        LET e == cmds[i]  ph == (i - 1) % 3 IN
-        IF ph = 0 THEN
-           IF e.op # 42 THEN "expected set-column-address"
-           ELSE IF e.n # 4 THEN "set-column-address without exactly 4 parameter bytes"
-           ELSE IF Be(e.p, 1) > Be(e.p, 3) THEN "column start > end"
-           ELSE IF Be(e.p, 3) >= cl THEN "column end outside the framebuffer"
-           ELSE IF i + 2 > n THEN "incomplete group" ELSE ""
-        ELSE IF ph = 1 THEN
-           IF e.op # 43 THEN "expected set-page-address"
-           ELSE IF e.n # 4 THEN "set-page-address without exactly 4 parameter bytes"
-           ELSE IF Be(e.p, 1) > Be(e.p, 3) THEN "page start > end"
-           ELSE IF Be(e.p, 3) >= pl THEN "page end outside the framebuffer" ELSE ""
-        ELSE
-           IF e.op # 44 THEN "expected memory-write-start"
-           ELSE IF wpp = 0 THEN ""
-           ELSE IF e.n % wpp # 0 THEN "pixel data is not a whole number of pixels"
-           ELSE IF isDT THEN
-                LET a == cmds[i - 2].p  b == cmds[i - 1].p
-                    ww == Be(a, 3) - Be(a, 1) + 1   wh == Be(b, 3) - Be(b, 1) + 1
-                    np == e.n \div wpp
-                IN IF ww > 0 /\ wh > 0 /\ wh <= MaxInt \div ww /\ np > ww * wh
-                   THEN "pixel data larger than the window" ELSE ""
-           ELSE ""
-      bad == {i \in 1 .. n : BadAt(i) # ""}
-  IN IF bad = {} THEN "" ELSE BadAt(CHOOSE i \in bad : \A j \in bad : i <= j)
-
-Num2C(cmds) == Cardinality({i \in 1 .. Len(cmds) : cmds[i].op = 44})
-Num2A(cmds) == Cardinality({i \in 1 .. Len(cmds) : cmds[i].op = 42})
 
 ---------------------------------------------------------------------------
 \* one driver call of a display scenario
 Cfg(sc) == sc.cfg
 Orient0(sc) == [rot |-> sc.cfg.rot, mir |-> sc.cfg.mir]
 
-ExpectedImg(sc, d, img, r) ==
-  LET cfg == sc.cfg  o == d.orient  a == r.args  n == r.name IN
-  CASE n = "set_pixel" -> APaint(img, cfg, o, <<<<a.x, a.y, a.c>>>>)
-    [] n = "set_pixels" -> ASetPixels(img, cfg, o, a.win, a.colors)
-    [] n = "draw_iter" -> APaint(img, cfg, o, a.px)
-    [] n = "fill_solid" -> AFillSolid(img, cfg, o, a.rect, a.c)
-    [] n = "fill_contiguous" -> AFillContig(img, cfg, o, a.rect, a.colors.start, a.colors.len)
-    [] n = "clear" -> AFillSolid(img, cfg, o, <<0, 0, LogicalSize(cfg, o)[1], LogicalSize(cfg, o)[2]>>, a.c)
-    [] OTHER -> img
-
-ArgsInBounds(sc, d, r) ==
-  LET cfg == sc.cfg  o == d.orient  a == r.args  n == r.name IN
-  CASE n = "set_pixel" -> InBox(cfg, o, a.x, a.y)
-    [] n = "set_pixels" -> SetPixelsPre(cfg, o, a.win, Len(a.colors))
-    [] n = "draw_iter" -> AllInBox(cfg, o, a.px)
-    [] n \in {"fill_solid", "fill_contiguous"} -> RectInBox(cfg, o, a.rect)
-    [] OTHER -> TRUE
+ExpectedImg(sc, d, img, r) == AExpected(img, sc.cfg, d.orient, r.name, r.args)
+ArgsInBounds(sc, d, r) == AInBounds(sc.cfg, d.orient, r.name, r.args)
 
 FaultHere(sc, r) == \E j \in 1 .. Len(sc.faults) : sc.faults[j].call = r.i /\ sc.faults[j].k >= 1 /\ sc.faults[j].k <= r.nf
 FaultK(sc, r) == LET j == CHOOSE j \in 1 .. Len(sc.faults) : sc.faults[j].call = r.i IN sc.faults[j].k
@@ -361,7 +311,10 @@ Step(r) ==
      LET fb == FbView(w1.ctl)
          v == JudgeFault(sc, d, w0, w1, r)
               \o Chk(\A c \in DOMAIN fb : InWindow(sc.cfg, c), r, {"C12"}, "the failed call modified a cell outside the panel window")
-     IN [s EXCEPT !.l = @ + 1, !.w = w1, !.img = fb, !.viol = @ \o v,
+         \* a sleep/wake that failed half-way returned without its 120 ms delay: the spacing to the next sleep-in/out
+         \* command is not the driver's to guarantee any more (C13 is stated for fault-free histories)
+         w2 == IF r.name \in {"sleep", "wake"} THEN [w1 EXCEPT !.ctl.tslpU = -1] ELSE w1
+     IN [s EXCEPT !.l = @ + 1, !.w = w2, !.img = fb, !.viol = @ \o v,
                   !.d = [d EXCEPT !.faulted = TRUE, !.slpUnknown = @ \/ r.name \in {"sleep", "wake"}],
                   !.stat = [st1 EXCEPT !.faults = @ + 1]]
   ELSE IF r.name = "init" THEN
@@ -490,7 +443,10 @@ Step(r) ==
      LET fb == FbView(w1.ctl)
          v == JudgeFault(sc, d, w0, w1, r)
               \o Chk(\A c \in DOMAIN fb : InWindow(sc.cfg, c), r, {"C12"}, "the failed call modified a cell outside the panel window")
-     IN [s EXCEPT !.l = @ + 1, !.w = w1, !.img = fb, !.viol = @ \o v,
+         \* a sleep/wake that failed half-way returned without its 120 ms delay: the spacing to the next sleep-in/out
+         \* command is not the driver's to guarantee any more (C13 is stated for fault-free histories)
+         w2 == IF r.name \in {"sleep", "wake"} THEN [w1 EXCEPT !.ctl.tslpU = -1] ELSE w1
+     IN [s EXCEPT !.l = @ + 1, !.w = w2, !.img = fb, !.viol = @ \o v,
                   !.d = [d EXCEPT !.faulted = TRUE, !.slpUnknown = @ \/ r.name \in {"sleep", "wake"}],
                   !.stat = [st1 EXCEPT !.faults = @ + 1]]
   ELSE IF r.name = "init" THEN
